@@ -900,14 +900,19 @@ func (ex *Exec) ensureInit(p *ssa.Package) {
 		return
 	}
 	// run with saved path state
-	saveStack, saveTarget := ex.stack, ex.initTarget
+	// initialisers are independent of the path: run them outside any merge guard
+	saveStack, saveTarget, saveGuards, savePanics := ex.stack, ex.initTarget, ex.guards, ex.panics
 	ex.stack = nil
+	ex.guards = nil
+	ex.panics = nil
 	ex.initTarget = p
 	ex.initMode++
 	defer func() {
 		ex.initMode--
 		ex.stack = saveStack
 		ex.initTarget = saveTarget
+		ex.guards = saveGuards
+		ex.panics = savePanics
 	}()
 	ex.call(ex.funcValue(initFn), nil)
 }
